@@ -16,25 +16,39 @@ package corerad
 //	                          interface list, their forwarding flags flipped like the others): its own forwarding
 //	                          gauge, no misconfiguration series
 //	api         -> Api        GET /_/api/interfaces: router_lifetime_seconds of every interface
+//	fault(i,e)  -> GenFail    while State.IPv6Forwarding(i) fails with e (os.ErrPermission bare, EACCES in an
+//	                          *os.SyscallError, EPERM in an *fs.PathError, a plain error) one of the above is forced
+//	                          for i, flag on or off: nothing may be generated (no RA written / compared, no gauge,
+//	                          no API lifetime); one GenFail event per failing read, carrying whatever came out
 //
 // Per generation the driver records the RA, whether the misconfiguration was surfaced (log line / gauge sample) and
 // how many times State.IPv6Forwarding was called for the interface.
 
 import (
 	"context"
+	"errors"
 	"fmt"
+	"io/fs"
+	"log"
 	"net"
 	"net/netip"
+	"os"
+	"sort"
 	"strings"
 	"sync"
+	"syscall"
 	"testing"
 	"testing/synctest"
 	"time"
 
 	"github.com/mdlayher/corerad/internal/config"
+	"github.com/mdlayher/corerad/internal/crhttp"
 	"github.com/mdlayher/corerad/internal/system"
 	"github.com/mdlayher/corerad/internal/verifh"
+	"github.com/mdlayher/metricslite"
 	"github.com/mdlayher/ndp"
+	"github.com/prometheus/client_golang/prometheus"
+	"github.com/prometheus/client_golang/prometheus/promhttp"
 )
 
 func c04Config(r *verifh.Rand) (toml string, n int, lifetimes []string) {
@@ -119,6 +133,66 @@ func c04Config(r *verifh.Rand) (toml string, n int, lifetimes []string) {
 	return strings.Join(stanzas, ""), n, lifetimes
 }
 
+// c04State is the shared recording State with an injectable failure of the forwarding read: the read is counted,
+// then fails with the scripted error (the flag itself stays what it is).
+type c04State struct {
+	*mState
+	fmu  sync.Mutex
+	fail map[string]error
+}
+
+func (s *c04State) IPv6Forwarding(iface string) (bool, error) {
+	v, err := s.mState.IPv6Forwarding(iface)
+	s.fmu.Lock()
+	ferr := s.fail[iface]
+	s.fmu.Unlock()
+	if ferr != nil {
+		return false, ferr
+	}
+	return v, err
+}
+
+func (s *c04State) setFailErr(iface string, err error) {
+	s.fmu.Lock()
+	defer s.fmu.Unlock()
+	if err == nil {
+		delete(s.fail, iface)
+	} else {
+		s.fail[iface] = err
+	}
+}
+
+// c04Faults: the errors a read of /proc/sys/net/ipv6/conf/<if>/forwarding can produce.
+func c04Faults(name string) []struct {
+	kind string
+	err  error
+} {
+	path := "/proc/sys/net/ipv6/conf/" + name + "/forwarding"
+	return []struct {
+		kind string
+		err  error
+	}{
+		{"ErrPermission", os.ErrPermission},
+		{"SyscallError-EACCES", &os.SyscallError{Syscall: "open", Err: syscall.EACCES}},
+		{"PathError-EPERM", &fs.PathError{Op: "open", Path: path, Err: syscall.EPERM}},
+		{"wrapped-ErrPermission", fmt.Errorf("read %s: %w", path, os.ErrPermission)},
+		{"PathError-ENOENT", &fs.PathError{Op: "open", Path: path, Err: syscall.ENOENT}},
+		{"plain", errors.New("verif: forwarding state unavailable")},
+	}
+}
+
+// newC04Wiring is newMWiring with the failure-injecting State in front of the recording one.
+func newC04Wiring(cfg *config.Config, st *c04State) *mWiring {
+	w := &mWiring{cfg: cfg, state: st.mState, logs: &mLog{notFwd: map[string]int{}}}
+	ll := log.New(w.logs, "", 0)
+	w.reg = prometheus.NewPedanticRegistry()
+	w.mm = NewMetrics(metricslite.NewPrometheus(w.reg), "verif", time.Time{}, st, cfg.Interfaces)
+	w.cctx = NewContext(ll, w.mm, st)
+	w.h = crhttp.NewHandler(ll, st, *cfg, promhttp.HandlerFor(w.reg, promhttp.HandlerOpts{}))
+	w.srv = NewServer(w.cctx)
+	return w
+}
+
 type c04Iface struct {
 	name     string
 	adv      *Advertiser
@@ -158,8 +232,8 @@ func TestVerifC04(t *testing.T) {
 }
 
 func c04Run(t *testing.T, out *verifh.Out, r *verifh.Rand, id, toml string, lifetimes []string, cfg *config.Config) {
-	st := newMState()
-	w := newMWiring(cfg, st)
+	st := &c04State{mState: newMState(), fail: map[string]error{}}
+	w := newC04Wiring(cfg, st)
 	in := verifh.NewIntern()
 
 	var ifs []*c04Iface
@@ -216,10 +290,17 @@ func c04Run(t *testing.T, out *verifh.Out, r *verifh.Rand, id, toml string, life
 	pathCount := map[string]int{}
 	flips := 0
 
+	genCtor, faultKind := "Gen", "" // "GenFail" while the forwarding read of the interface is made to fail
+	faultTags := map[string]bool{}
 	emitGen := func(x *c04Iface, path string, ra *ndp.RouterAdvertisement, lifeS *int64, surfaced *bool, fwdGauge *bool, reads int) {
-		events = append(events, verifh.App("Gen", in.N("if:"+x.name), path))
+		events = append(events, verifh.App(genCtor, in.N("if:"+x.name), path))
 		oRA, oL, oS, oF := verifh.None(), verifh.None(), verifh.None(), verifh.None()
 		rec := map[string]any{"iface": x.name, "path": path, "reads": reads, "forwarding": st.fwd[x.name]}
+		if genCtor == "GenFail" {
+			rec["state_read_error"] = faultKind
+			faultTags["fault:"+faultKind], faultTags["fault-path:"+path] = true, true
+			faultTags["fault-while-forwarding:"+verifh.B(st.fwd[x.name])] = true
+		}
 		if ra != nil {
 			oRA = verifh.Some(coqRA(ra, in))
 			rec["router_lifetime_ns"] = int64(ra.RouterLifetime)
@@ -302,13 +383,160 @@ func c04Run(t *testing.T, out *verifh.Out, r *verifh.Rand, id, toml string, life
 		}
 	}
 
-	steps := 8 + r.Intn(18)
+	// faultWindow: what the advertiser of x produced while its forwarding read failed: one GenFail per failing
+	// read (and per RA that came out regardless), each carrying the RA that was written / compared, if any.
+	faultWindow := func(x *c04Iface, path string) {
+		var ras []*ndp.RouterAdvertisement
+		if x.conn != nil {
+			ws := x.conn.snapshot()
+			for _, wr := range ws[x.seen:] {
+				ras = append(ras, wr.RA)
+			}
+			x.seen = len(ws)
+		}
+		x.oursMu.Lock()
+		ras = append(ras, x.ours[x.oursSeen:]...)
+		x.oursSeen = len(x.ours)
+		x.oursMu.Unlock()
+		reads := st.reads(x.name) - x.reads
+		x.reads, x.logs = st.reads(x.name), w.logs.count(x.name)
+		for k := 0; k < max(reads, len(ras)); k++ {
+			var ra *ndp.RouterAdvertisement
+			if k < len(ras) {
+				ra = ras[k]
+			}
+			rd := 0
+			if k < reads {
+				rd = 1
+			}
+			emitGen(x, path, ra, nil, nil, nil, rd)
+		}
+		if x.done != nil && !x.stopped {
+			select {
+			case <-x.done: // Run returned: the advertiser is gone for the rest of the history
+				x.stopped = true
+			default:
+			}
+		}
+	}
+	// fault forces one generation on interface x while its forwarding read fails.
+	fault := func(x *c04Iface, script *[]string) {
+		f := verifh.Pick(r, c04Faults(x.name))
+		var trigs []string
+		switch {
+		case x.adv == nil:
+			trigs = []string{"scrape"}
+		case !x.started:
+			trigs = []string{"start", "start", "scrape", "api"}
+		case !x.stopped:
+			trigs = []string{"rs", "rs", "peer", "peer", "advance", "stop", "scrape", "api"}
+		default:
+			trigs = []string{"scrape", "api"}
+		}
+		trig := verifh.Pick(r, trigs)
+		st.setFailErr(x.name, f.err)
+		genCtor, faultKind = "GenFail", f.kind
+		defer func() {
+			st.setFailErr(x.name, nil)
+			genCtor, faultKind = "Gen", ""
+		}()
+		*script = append(*script, fmt.Sprintf("fault(%s,%s,%s)", x.name, f.kind, trig))
+		others := func() {
+			genCtor = "Gen"
+			for _, y := range ifs {
+				if y != x {
+					window(y, byDst)
+				}
+			}
+			genCtor = "GenFail"
+		}
+		resync := func() { // a failed scrape / request: the other interfaces are not observed
+			for _, y := range append(append([]*c04Iface{}, ifs...), idle...) {
+				y.reads, y.logs = st.reads(y.name), w.logs.count(y.name)
+			}
+		}
+		switch trig {
+		case "start":
+			x.started = true
+			ctx, cancel := context.WithCancel(context.Background())
+			x.cancel, x.done = cancel, make(chan error, 1)
+			go func() { x.done <- x.adv.Run(ctx) }()
+			synctest.Wait()
+			faultWindow(x, "Initial")
+			others()
+		case "rs":
+			x.conn.readC <- rs(fmt.Sprintf("fe80::%x", 2+r.Intn(100)))
+			time.Sleep(600 * time.Millisecond)
+			synctest.Wait()
+			faultWindow(x, "Solicited")
+			others()
+		case "peer":
+			x.conn.readC <- vRead{msg: &ndp.RouterAdvertisement{ManagedConfiguration: !x.adv.cfg.Managed, RouterLifetime: 30 * time.Minute},
+				hop: ndp.HopLimit, from: netip.MustParseAddr("fe80::ffff")}
+			synctest.Wait()
+			faultWindow(x, "Verify")
+			others()
+		case "advance":
+			time.Sleep(verifh.Pick(r, []time.Duration{5 * time.Second, 17 * time.Second, 40 * time.Second}))
+			synctest.Wait()
+			faultWindow(x, "Periodic")
+			others()
+		case "stop":
+			x.cancel()
+			select {
+			case <-x.done:
+				x.stopped = true
+			case <-time.After(time.Minute):
+				out.Emit(verifh.Case{ID: id + "-stuck", ImplViolation: "advertiser did not stop", Input: map[string]any{"toml": toml}})
+			}
+			synctest.Wait()
+			faultWindow(x, "Final")
+			others()
+		case "scrape":
+			mfs, _ := w.reg.Gather() // expected to fail; whatever was gathered for x is what the scrape exported
+			fwdG, mis := c04ScrapeOf(gatherSamples(mfs), x.name)
+			rd := st.reads(x.name) - x.reads
+			path := "Scrape"
+			if x.adv == nil {
+				path = "ScrapeIdle"
+			}
+			emitGen(x, path, nil, nil, &mis, fwdG, rd)
+			resync()
+		case "api":
+			status, body, p := w.get("/_/api/interfaces")
+			if p != nil {
+				out.Emit(verifh.Case{ID: id + "-api", ImplViolation: fmt.Sprintf("API panicked on a failing state read: %v", p), Input: map[string]any{"toml": toml}})
+				resync()
+				return
+			}
+			var ls *int64
+			if jb, err := decodeBody(body); status == 200 && err == nil {
+				for _, ji := range jb.Interfaces {
+					if ji.Interface == x.name && ji.Advertisement != nil {
+						v := ji.Advertisement.RouterLifetimeSeconds
+						ls = &v
+					}
+				}
+			}
+			emitGen(x, "Api", nil, ls, nil, nil, st.reads(x.name)-x.reads)
+			resync()
+		}
+	}
+
+	steps := 10 + r.Intn(18)
 	if verifh.Thorough() && r.Chance(10) {
 		steps = 60
 	}
 	var script []string
 	for s := 0; s < steps; s++ {
 		x := ifs[r.Intn(len(ifs))]
+		if r.Chance(8) {
+			if len(idle) > 0 && r.Chance(15) {
+				x = idle[r.Intn(len(idle))]
+			}
+			fault(x, &script)
+			continue
+		}
 		op := r.Intn(100)
 		if op < 22 && len(idle) > 0 && r.Chance(30) {
 			x = idle[r.Intn(len(idle))] // the only thing that happens to an idle interface: its flag flips
@@ -486,6 +714,12 @@ func c04Run(t *testing.T, out *verifh.Out, r *verifh.Rand, id, toml string, life
 	if flips > 0 {
 		tags = append(tags, "flips")
 	}
+	var ft []string
+	for tg := range faultTags {
+		ft = append(ft, tg)
+	}
+	sort.Strings(ft)
+	tags = append(tags, ft...)
 	out.Emit(verifh.Case{
 		ID:       id,
 		Coq:      verifh.App("mkCase", verifh.List(cfgTerms), verifh.List(fwd0Terms), verifh.List(events), verifh.List(obs)),
